@@ -73,6 +73,40 @@ CHECKS = {
              'shift of between-bytes actions (and of the terminal status they produce). Compiler verdicts must also agree. Witnesses are replayed on both binaries.',
         note='Length-bounded product search on generated and corpus programs; code-generation-only optimisations (range collapsing) are bound to the machine by C06, which runs -O2/-O3 builds.',
         technique='TLC bisimulation-with-slack of two exported machines', thorough=True),
+    'C04': dict(
+        category='model_checking', design_ref='6/C04',
+        text='MachineMC.tla: TLC explores every exported machine over all symbol cells and end-of-input with the data store in the state and reports symbols whose dispatch '
+             'exceeds the fuel of non-consuming moves (fall-through, condition branches, out-of-space redirects, breaks) and yield sequences that never consume; each report is '
+             'confirmed on the binary under a wall-clock limit. Reject side: generated loops that may or may not consume; whenever the TLA+ source semantics (NmfuLang) can go round '
+             'without consuming, or the machine spins, the compiler must have rejected the program. All C runs are wall-clock guarded.',
+        note='Length-bounded exploration over sampled programs; the fuel bound (64 moves) stands for "unbounded"; one accepted class is a recorded known finding (out-of-space handler re-entering the appending construct).',
+        technique='TLC exploration of non-consuming cycles in exported machines + source-semantics zero-progress detection', thorough=True),
+    'C07': dict(
+        category='model_checking', design_ref='6/C07',
+        text='For every regex AST of size <= 3 over {a, b, [ab], [^a], ., \\d} and all operators (sampled in quick), random larger ones and a fixed set of corner regexes (wildcards/inverted sets at end-of-input, '
+             'binary ranges touching 0x00/0xff) TLC explores the product of the compiled matcher with the Antimirov partial-derivative automaton of the AST (NmfuRegex.tla, own class tables) over all '
+             'symbol cells of 0..255 and end-of-input: mismatch exactly when the derivative set dies, completion exactly when it is finished, hand-over to a sentinel statement exactly for members. '
+             'The emitted C matcher of a subset is bound to the machine by single-step sweeps over all 256 bytes and end().',
+        note='Exact per regex (closed product search); the set of regexes is enumerated to size 3 and sampled beyond. The regex source text is printed by the generator from the AST, parsed by the real front end.',
+        technique='TLC product: compiled matcher x Antimirov derivative automaton in TLA+', thorough=True),
+    'C08': dict(
+        category='model_checking', design_ref='6/C08',
+        text='Conform.tla on generated case / greedy-case programs whose clauses carry distinct markers: the Lang case frame runs all clause patterns in parallel as derivative sets, takes else / no-match '
+             'exactly when no pattern continues and none matched (at the offending symbol) and resolves greedy cases by maximal munch then priority; plus single-step sweeps of the emitted C.',
+        note='Generated pattern sets; one known finding (greedy action-only clause fires early) is pinned and its class excluded from random generation.',
+        technique='TLC product: exported machine x TLA+ case semantics with parallel derivative sets', thorough=True),
+    'C16': dict(
+        category='model_checking', design_ref='6/C16',
+        text='Conform.tla on generated wait programs (bare, in try blocks, in loops, under foreach; literal, case-insensitive, regex, concatenated patterns) compiled with EOF support: the Lang wait frame is the '
+             'restart automaton built from derivatives and never raises, so a machine that fails, enters a handler or lets end-of-input escape during a wait has no explanation; plus sweeps of the emitted C.',
+        note='Length-bounded product search on sampled patterns.',
+        technique='TLC product: exported machine x restart automaton semantics in TLA+', thorough=True),
+    'C17': dict(
+        category='model_checking', design_ref='6/C17',
+        text='Conform.tla with END as a symbol on programs compiled with EOF support (`end` in match, case and wait positions, in handlers, followed by actions and finish codes): after every explored input the '
+             'result of <parser>_end and the actions it runs are compared with the Lang end-of-input step; END is in no data class and `end` matches no byte (NmfuRegex); the C _end of every state is swept against the machine.',
+        note='Permissive at OP1/OP4 (trailing lookahead constructs, strict-done): there FAIL is admitted where the program has logically ended.',
+        technique='TLC product with end-of-input as a symbol + single-step sweeps of _end', thorough=True),
 }
 
 NOT_YET = 'check not built yet in this session (specification work in progress); see DESIGN.md section 12'
